@@ -144,6 +144,7 @@ type Exec struct {
 	top         topFrame
 	exceptTerms map[string]string
 	curTop      *ssa.Function
+	refine      *refineCtx // non-nil while verifying an implementation against an interface contract
 	inSpec      int // > 0 while symbolically executing Go code inside a spec expression: no definitions, no assumptions
 	boundK      int // > 0: bounded-instance mode for counter-model search (integer quantifiers expanded)
 	topArgs     []Val
@@ -482,3 +483,36 @@ func (e *Exec) defOrInline(name, sort, term string) string {
 }
 
 func (e *Exec) note(f string, a ...interface{}) { e.notes = append(e.notes, fmt.Sprintf(f, a...)) }
+
+// refineCtx: the ghost variable of an interface contract is read off the implementing object's
+// concrete state (abstraction function), one abstract value per program state.
+type refineCtx struct {
+	impl    *ImplBlock
+	recv    Val    // the receiver object
+	selfPay string // payload of the interface value standing for it
+	ty      *STy   // type of the ghost variable
+	cache   map[*State]string
+	entry   *State
+}
+
+func (e *Exec) refineView(st *State, from *Env) string {
+	rc := e.refine
+	if v, ok := rc.cache[st]; ok {
+		return v
+	}
+	name := e.S.declare(e.S.freshName("RV."+rc.impl.Ghost), rc.ty.Sort())
+	rc.cache[st] = name
+	idx := "q!" + rc.impl.IdxName
+	env := &Env{E: e, Vars: map[string]Val{rc.impl.RecvName: rc.recv, rc.impl.IdxName: {T: sym(idx), Ty: rc.ty.Elem.Key}}, St: st, Old: rc.entry,
+		Imports: rc.impl.Imports, Pkg: rc.impl.Pkg, Where: fmt.Sprintf("%s:%d view of impl (%s) %s", rc.impl.File, rc.impl.Line, rc.impl.Recv, rc.impl.Iface)}
+	saved := e.refine
+	e.refine = nil // the view expression itself reads concrete state only
+	body := env.elab(rc.impl.View)
+	e.refine = saved
+	e.S.assume(fmt.Sprintf("(forall ((%s %s)) (! (= (select (select %s %s) %s) %s) :pattern ((select (select %s %s) %s))))", sym(idx), rc.ty.Elem.Key.Sort(), name, rc.selfPay, sym(idx), body.T, name, rc.selfPay, sym(idx)))
+	if st != rc.entry {
+		ent := e.refineView(rc.entry, from)
+		e.S.assume(fmt.Sprintf("(forall ((s Int)) (! (=> (not (= s %s)) (= (select %s s) (select %s s))) :pattern ((select %s s))))", rc.selfPay, name, ent, name))
+	}
+	return name
+}
